@@ -11,6 +11,7 @@ import (
 	MapSet "github.com/deckarep/golang-set/v2"
 	"github.com/gopher-fleece/gleece/v2/gast"
 	"github.com/gopher-fleece/gleece/v2/infrastructure/logger"
+	"github.com/gopher-fleece/gleece/v2/infrastructure/verifhook"
 	"golang.org/x/tools/go/packages"
 )
 
@@ -51,6 +52,7 @@ func (facade *PackagesFacade) GetAllSourceFiles() []*ast.File {
 	for _, file := range facade.files {
 		result = append(result, file)
 	}
+	result = verifhook.Permute("source-files", result, func(f *ast.File) string { return gast.GetAstFileName(facade.fileSet, f) })
 	return result
 }
 
@@ -209,6 +211,7 @@ func (facade *PackagesFacade) loadAndCacheExpressions(
 		}
 	}
 
+	matchingPackages = verifhook.Permute("loaded-packages", matchingPackages, func(p *packages.Package) string { return p.PkgPath })
 	// Note that packages.Load does *not* guarantee order
 	for _, pkg := range matchingPackages {
 		facade.cachePackage(pkg, relevantFiles)
